@@ -44,6 +44,21 @@ impl Constructor {
 
 impl Compile for Constructor {
     fn compile(&self, state: &CompilationState) -> Result<Vec<CompiledItem>, anyhow::Error> {
+        let (mut make_constructor, mut construct) = self.compile_in_two_steps(state)?;
+        make_constructor.append(&mut construct);
+        Ok(make_constructor)
+    }
+}
+
+impl Constructor {
+    /// The code of a class body around its constructor, in two steps: (1) make the constructor
+    /// function and park it in a register, (2) make the object, call the constructor on it and
+    /// leave the object on the stack. The class body declares the fields in between, so that
+    /// what the constructor captures by name is looked up before the fields exist.
+    pub fn compile_in_two_steps(
+        &self,
+        state: &CompilationState,
+    ) -> Result<(Vec<CompiledItem>, Vec<CompiledItem>), anyhow::Error> {
         let symbolic_id = self.symbolic_id();
         let mut args = self.parameters.compile(state)?;
         let mut body = self.body.compile(state)?;
@@ -88,11 +103,14 @@ impl Compile for Constructor {
 
         let constructor_register = state.poll_temporary_register();
         let obj_register = state.poll_temporary_register();
+        let make_constructor = vec![
+            make_function_instruction,
+            instruction!(store_fast constructor_register),
+        ];
+
         let mut result = vec![
             instruction!(make_object),
             instruction!(store_fast obj_register),
-            make_function_instruction,
-            instruction!(store_fast constructor_register),
             instruction!(load_fast obj_register),
         ];
 
@@ -107,7 +125,7 @@ impl Compile for Constructor {
             instruction!(load_fast obj_register),
         ]);
 
-        Ok(result)
+        Ok((make_constructor, result))
     }
 }
 
